@@ -29,10 +29,15 @@ struct verif_in_t {
 	uint8_t	wanted_l, wanted_k;
 	int	fd_f, fd_l, fd_k;
 	short	old_events;
-	int	sync_ret;	/* poll() result in notify_fd_sync */
-	short	sync_revents;
-	int	sync_errno;
-	uint8_t	sync_eintr;
+	/* wait units */
+	int	w_np;
+	short	w_revents[CAP];
+	int	w_ret, w_err;		/* poll()/ppoll() outcome */
+	int	w_ret2, w_err2;		/* poll() outcome after the ppoll -> poll fallback */
+	_Bool	w_abs_present;
+	long	w_abs_sec, w_abs_nsec;
+	uint8_t	w_bits;
+	uint8_t	w_eintr;		/* interruptions of the synchronous probe */
 } verif_in;
 
 static struct iv_state	v_state;
@@ -134,5 +139,190 @@ void h_iv_fd_poll_notify_fd(void)
 {
 	v_build();
 	CALL(iv_fd_poll_notify_fd)(&v_state, &v_F);
+	CANARY();
+}
+
+/* ====================================================================
+ * poll / ppoll wait functions, band mapping, sync probe, init/deinit.
+ * Mode S; iv_fd_make_ready replaced by its contract as a ghost log.
+ * ================================================================== */
+#ifndef NP
+#define NP 2			/* registered descriptors in the wait units */
+#endif
+
+static int	g_mr[CAP], g_mr_bad, g_poll_calls, g_ppoll_calls, g_clock_reads;
+static int	g_poll_ms; static _Bool g_ppoll_to_null; static struct timespec g_ppoll_to;
+static struct iv_list_head v_active;
+static struct iv_fd_	v_pf[CAP];
+
+void iv_fd_make_ready(struct iv_list_head *active, struct iv_fd_ *fd, int bands)
+{
+	int i = fd - v_pf;
+
+	if (active != &v_active || i < 0 || i >= CAP || (bands != MASKIN && bands != MASKOUT && bands != MASKERR))
+		g_mr_bad++;
+	else
+		g_mr[i] |= bands;
+}
+
+void iv_time_get(struct timespec *t) { g_clock_reads++; t->tv_sec = 5; t->tv_nsec = 0; }
+
+static _Bool g_probe_mode; static int g_probe_eintr;
+
+static int k_fill(struct pollfd *fds, nfds_t n, int ret, int err)
+{
+	int i;
+
+	__CPROVER_assert(fds == v_pfds && n == (nfds_t)v_state.u.poll.num_regd_fds, "[C02,C15] the wait covers exactly the dense array of registered descriptors");
+	if (ret < 0) {
+		verif_errno = err;
+		return -1;
+	}
+	for (i = 0; i < CAP; i++)
+		if (i < (int)n)
+			fds[i].revents = verif_in.w_revents[i];
+	return ret;
+}
+
+int STUB(poll)(struct pollfd *fds, nfds_t n, int ms)
+{
+	g_poll_calls++;
+	g_poll_ms = ms;
+	if (g_probe_mode) {
+		/* the synchronous probe of one descriptor (iv_fd_register_try) */
+		__CPROVER_assert(n == 1 && ms == 0 && fds[0].fd == v_F.fd, "[C07] the probe asks the kernel about exactly this descriptor, without waiting");
+		if (g_probe_eintr > 0) {
+			g_probe_eintr--;
+			verif_errno = EINTR;
+			return -1;
+		}
+		if (verif_in.w_ret < 0) {
+			verif_errno = verif_in.w_err;
+			return -1;
+		}
+		fds[0].revents = verif_in.w_revents[0];
+		return verif_in.w_ret;
+	}
+	if (g_ppoll_calls)
+		return k_fill(fds, n, verif_in.w_ret2, verif_in.w_err2);
+	return k_fill(fds, n, verif_in.w_ret, verif_in.w_err);
+}
+
+int STUB(ppoll)(struct pollfd *fds, nfds_t n, const struct timespec *to, const sigset_t *ss)
+{
+	g_ppoll_calls++;
+	g_ppoll_to_null = (to == NULL);
+	if (to != NULL)
+		g_ppoll_to = *to;
+	return k_fill(fds, n, verif_in.w_ret, verif_in.w_err);
+}
+
+#define BANDS_OF_POLL(rev)	(((rev) & (POLLIN | POLLERR | POLLHUP) ? MASKIN : 0) |	\
+				 ((rev) & (POLLOUT | POLLERR | POLLHUP) ? MASKOUT : 0) |	\
+				 ((rev) & (POLLERR | POLLHUP) ? MASKERR : 0))
+
+static struct timespec v_abs2;
+
+static void v_build_wait(void)
+{
+	int i;
+
+	VERIF_IN_LOAD();
+	verif_st = &v_state;
+	__CPROVER_assume(verif_in.w_np >= 0 && verif_in.w_np <= NP);
+	__CPROVER_assume(verif_in.w_abs_nsec >= 0 && verif_in.w_abs_nsec < 1000000000 && verif_in.w_abs_sec >= 0 && verif_in.w_abs_sec < (1L << 40));
+	v_state.u.poll.pfds = v_pfds;
+	v_state.u.poll.fds = v_fds;
+	v_state.u.poll.num_regd_fds = verif_in.w_np;
+	for (i = 0; i < CAP; i++) {
+		v_fds[i] = &v_pf[i];
+		v_pf[i].u.index = i;
+	}
+	v_state.time_valid = 1;
+	v_state.time.tv_sec = 5; v_state.time.tv_nsec = 0;
+	INIT_IV_LIST_HEAD(&v_active);
+	v_abs2.tv_sec = verif_in.w_abs_sec; v_abs2.tv_nsec = verif_in.w_abs_nsec;
+}
+
+static void check_wait(int r, int final_ret, int final_err)
+{
+	int i;
+
+	__CPROVER_assert(v_state.time_valid == 0, "[C04,C15] the cached clock is invalidated after every wait, also an interrupted one");
+	__CPROVER_assert(r == 1, "[C04,C15] timers are re-evaluated after every wait (also after EINTR)");
+	__CPROVER_assert(g_mr_bad == 0, "[C03] only registered descriptors are made ready, one band at a time, on the caller's batch");
+	for (i = 0; i < NP; i++) {
+		int exp = (final_ret >= 0 && i < verif_in.w_np) ? BANDS_OF_POLL(verif_in.w_revents[i]) : 0;
+		__CPROVER_assert(g_mr[i] == exp, "[C03,C02] ready bands are exactly the bands of the reported revents (IN|ERR|HUP->in, OUT|ERR|HUP->out, ERR|HUP->err); nothing on EINTR");
+	}
+}
+
+void h_poll_poll(void)
+{
+	int r;
+
+	v_build_wait();
+	__CPROVER_assume(verif_in.w_ret >= -1 && IMPLIES(verif_in.w_ret < 0, verif_in.w_err == EINTR));
+	r = iv_fd_poll_poll(&v_state, &v_active, verif_in.w_abs_present ? &v_abs2 : NULL);
+	__CPROVER_assert(g_poll_calls == 1, "[C07] exactly one kernel wait");
+	__CPROVER_assert(IFF(g_poll_ms == -1, !verif_in.w_abs_present) && g_poll_ms >= -1, "[C04] unbounded wait iff there is no deadline");
+	check_wait(r, verif_in.w_ret, verif_in.w_err);
+	v_state.time_valid = 1;		/* same clock reading as before the wait (5 s) */
+	__CPROVER_assert(g_poll_ms == to_msec(&v_state, verif_in.w_abs_present ? &v_abs2 : NULL), "[C04] millisecond timeout is to_msec(deadline) at the loop clock (to_msec is specified in unit time_to_msec)");
+	CANARY();
+}
+
+void h_poll_ppoll(void)
+{
+	int r;
+	const struct iv_fd_poll_method *m0;
+
+	v_build_wait();
+	method = m0 = &iv_fd_poll_method_ppoll;
+	__CPROVER_assume(verif_in.w_ret >= -1 && IMPLIES(verif_in.w_ret < 0, verif_in.w_err == EINTR || verif_in.w_err == ENOSYS));
+	__CPROVER_assume(verif_in.w_ret2 >= -1 && IMPLIES(verif_in.w_ret2 < 0, verif_in.w_err2 == EINTR));
+	r = iv_fd_poll_ppoll(&v_state, &v_active, verif_in.w_abs_present ? &v_abs2 : NULL);
+	__CPROVER_assert(g_ppoll_calls == 1, "[C15] ppoll is tried first");
+	__CPROVER_assert(IFF(g_ppoll_to_null, !verif_in.w_abs_present), "[C04] unbounded wait iff there is no deadline");
+	if (verif_in.w_ret < 0 && verif_in.w_err == ENOSYS) {
+		__CPROVER_assert(method == &iv_fd_poll_method_poll && g_poll_calls == 1, "[C15] ppoll missing: the method is switched to poll in mid-run and the same wait (same array, same deadline) is done with poll");
+		__CPROVER_assert(IFF(g_poll_ms == -1, !verif_in.w_abs_present), "[C15,C04] same deadline");
+		check_wait(r, verif_in.w_ret2, verif_in.w_err2);
+	} else {
+		__CPROVER_assert(method == m0 && g_poll_calls == 0, "[C15] otherwise the method is unchanged");
+		check_wait(r, verif_in.w_ret, verif_in.w_err);
+	}
+	CANARY();
+}
+
+/* band -> poll mask table, all 8 inputs */
+void h_poll_bits_mask(void)
+{
+	int m;
+
+	VERIF_IN_LOAD();
+	__CPROVER_assume(verif_in.w_bits <= 7);
+	m = bits_to_poll_mask(verif_in.w_bits);
+	__CPROVER_assert(m == PMASK(verif_in.w_bits), "[C02,C03] band to poll-mask mapping: in->POLLIN|POLLHUP, out->POLLOUT|POLLHUP, err->POLLHUP");
+	CANARY();
+}
+
+/* synchronous probe of iv_fd_register_try */
+void h_poll_notify_fd_sync(void)
+{
+	int r, n0;
+
+	v_build();
+	__CPROVER_assume(verif_in.idx == -1 && verif_in.wanted != 0);
+	v_F.u.index = -1;
+	n0 = v_state.u.poll.num_regd_fds;
+	g_probe_mode = 1;
+	__CPROVER_assume(verif_in.w_eintr <= 2 && verif_in.w_err != EINTR && verif_in.w_ret <= 1);
+	g_probe_eintr = verif_in.w_eintr;
+	r = iv_fd_poll_notify_fd_sync(&v_state, &v_F);
+	__CPROVER_assert(r == 0 || r == -1, "verdict");
+	__CPROVER_assert(IFF(r == -1, verif_in.w_ret < 0 || (verif_in.w_revents[0] & POLLNVAL)), "[C07,C15] rejected iff the kernel reports an error or an invalid descriptor; EINTR is retried");
+	__CPROVER_assert(IMPLIES(r == -1, v_state.u.poll.num_regd_fds == n0 && v_F.u.index == -1), "[C07] a rejected descriptor gets no slot");
+	__CPROVER_assert(IMPLIES(r == 0, v_state.u.poll.num_regd_fds == n0 + 1 && v_F.u.index == n0), "[C02] an accepted one is added to the array");
 	CANARY();
 }
